@@ -57,6 +57,8 @@ pub enum Op {
     RowStyle { sheet: usize, row: u32, k: u8 },
     ColStyle { sheet: usize, col: u32, k: u8 },
     Image { sheet: usize, cell: String, name: String, blue: bool },
+    /// the same characters twice: as rich text (two runs, the second bold) in one cell and as plain text in another
+    Twin { sheet: usize, cell: String, other_sheet: usize, other_cell: String, text: String },
     /// a sheet or workbook annotation (conditional format, validation, ...), see annot.rs
     Annot { a: crate::annot::AOp },
 }
@@ -104,6 +106,7 @@ impl Op {
             Op::ColStyle { .. } => "col_style",
             Op::Image { .. } => "image",
             Op::Annot { .. } => "annot",
+            Op::Twin { .. } => "twin",
         }
     }
 }
@@ -486,6 +489,14 @@ pub fn apply(book: &mut Spreadsheet, op: &Op) -> bool {
             img.new_image_with_dimensions(1, 1, name.as_str(), bytes, marker);
             s.add_image(img);
         }),
+        Op::Twin { sheet, cell, other_sheet, other_cell, text } => {
+            let chars: Vec<char> = text.chars().collect();
+            let mid = chars.len() / 2;
+            let (a, b): (String, String) = (chars[..mid].iter().collect(), chars[mid..].iter().collect());
+            apply(book, &Op::SetRich { sheet: *sheet, cell: cell.clone(), parts: vec![a, b] });
+            apply(book, &Op::SetText { sheet: *other_sheet, cell: other_cell.clone(), v: text.clone() });
+            Some(())
+        }
         Op::Annot { a } => {
             crate::annot::apply(book, a);
             Some(())
@@ -533,7 +544,7 @@ pub const ALPHABETS: &[&[&str]] = &[
     &["a", "b", "c", "x", "y", "z", "0", "1", " "],
     &["&", "<", ">", "\"", "'", "a", ";", "&amp;"],
     &[" ", "  ", "\n", "\t", "a", "b", "\r\n"],
-    &["é", "ß", "日本", "😀", "𝄞", "Ω", "a"],
+    &["é", "ß", "日本", "😀", "𝄞", "Ω", "a", "_x0041_", "_x000A_"],
     &["a", "\u{1}", "\u{b}", "\u{1f}", "b", "_x0041_", "\u{7f}"],
     // the two non-characters XML 1.0 excludes, without any C0 control or underscore next to them
     &["a", "\u{fffe}", "\u{ffff}", "é", " ", "b"],
@@ -552,6 +563,16 @@ pub fn gen_text(rng: &mut Rng, alpha: usize, max_parts: usize) -> String {
 /// a text that is unique (carries `tag`) and cannot be mistaken for a number/bool/error
 pub fn tagged(rng: &mut Rng, tag: &str, alpha: usize) -> String {
     format!("{}:{}", tag, gen_text(rng, alpha, 4))
+}
+
+pub fn col_letters(mut c: u32) -> String {
+    let mut s = Vec::new();
+    while c > 0 {
+        let r = ((c - 1) % 26) as u8;
+        s.push((b'A' + r) as char);
+        c = (c - 1) / 26;
+    }
+    s.iter().rev().collect()
 }
 
 pub fn gen_cell(rng: &mut Rng, ncells: usize) -> String {
@@ -578,6 +599,13 @@ pub fn gen_cell_op(rng: &mut Rng, cfg: &GenCfg, tag: &str) -> Op {
                 _ => tagged(rng, tag, cfg.alpha),
             };
             Op::SetText { sheet, cell, v }
+        }
+        1 if rng.chance(1, 3) => {
+            // neighbours in the row, or the same cell on another sheet
+            let (col, row) = crate::decode::col_row(&cell).unwrap_or((1, 1));
+            let other_cell = if rng.chance(2, 3) && col < 16000 { format!("{}{}", col_letters(col + 1 + rng.below(2) as u32), row) } else { format!("{}{}", col_letters(col), if row < 1_000_000 { row + 1 } else { row - 1 }) };
+            let other_sheet = sheet;
+            Op::Twin { sheet, cell, other_sheet, other_cell, text: format!("{}:{}tw", tag, gen_text(rng, cfg.alpha, 2)) }
         }
         1 => {
             let n = 1 + rng.usize(3);
